@@ -76,9 +76,12 @@ func runC19(c *Ctx) {
 		pf := c.pats(which, nil, "~in(conv:float64)")[0]
 		pf32 := c.pats(which, nil, "~in(conv:float32)")[0]
 		for _, r := range rr.Rets {
+			// results are read modulo the class's equalities (the arithmetic may live in a helper)
+			e.T.Alias = e.T.AliasesOf(r.Atoms)
 			if len(r.Results) == 1 && (e.T.Match(pf, r.Results[0], term.Env{}, func(term.Env) bool { return true }) || e.T.Match(pf32, r.Results[0], term.Env{}, func(term.Env) bool { return true })) {
 				c.bad("C19/block-delay/integer", "core/03-connection/keeper.Keeper.getBlockDelay", "", "block delay is computed through floating point: "+clip(e.T.String(r.Results[0]), 200))
 			}
+			e.T.Alias = nil
 		}
 		c.ok("C19/block-delay/scanned", "core/03-connection/keeper.Keeper.getBlockDelay", "", "return classes scanned for float conversions")
 		// exact ceiling: 0 if per==0; q if r==0; q+1 if r!=0, with d = connection.DelayPeriod
@@ -95,6 +98,7 @@ func runC19(c *Ctx) {
 				continue
 			}
 			okShape := false
+			e.T.Alias = e.T.AliasesOf(r.Atoms)
 			for i, s := range shapes {
 				pr := c.pats(which, nil, s.res)[0]
 				pa := c.pats(which, nil, s.atom)[0]
@@ -103,6 +107,7 @@ func runC19(c *Ctx) {
 					seen[i] = true
 				}
 			}
+			e.T.Alias = nil
 			if !okShape {
 				c.bad("C19/block-delay/exact-ceiling", "core/03-connection/keeper.Keeper.getBlockDelay", "", "a return class yields "+clip(e.T.String(r.Results[0]), 200)+" which is not 0 / quotient / quotient+1 under the matching remainder test")
 			}
